@@ -1,15 +1,14 @@
 #!/bin/bash
-# tools/try_mutant.sh Cxx patch.diff [tier]  : apply the patch in the lead's scratch worktree (synced to /repo HEAD),
-# run the check against it, restore.  Prints the verdict lines.
+# tools/try_mutant.sh Cxx patch.diff [tier]  : apply the patch in a private scratch worktree of /repo HEAD,
+# run the check against it (VERIF_REPO), remove the worktree.  Prints the verdict lines.  Evidence of the
+# unchanged tree is preserved.
 prop=$1; patch=$2; tier=${3:-quick}
-WT=/tmp/wt-lead
-[ -d $WT ] || git -C /repo worktree add --detach $WT HEAD -q
-git -C $WT checkout -q --detach $(git -C /repo rev-parse HEAD) 2>/dev/null
-git -C $WT checkout -q -- . ; git -C $WT clean -fdq
-git -C $WT apply "$patch" || { echo "PATCH DOES NOT APPLY"; exit 3; }
-cp /verif/evidence/$prop.json /tmp/ev_$prop.json.bak 2>/dev/null
+WT=$(mktemp -d /tmp/try.XXXXXX)/wt
+git -C /repo worktree add --detach $WT HEAD -q
+git -C $WT apply "$patch" || { echo "PATCH DOES NOT APPLY"; git -C /repo worktree remove --force $WT; exit 3; }
+cp /verif/evidence/$prop.json /tmp/ev_$prop.$$.bak 2>/dev/null
 cd /verif && VERIF_REPO=$WT timeout 3000 ./check $prop --tier $tier 2>&1 | grep -E "^(VIOLATION|OK|KNOWN|TOOL)" | cut -c1-220
 rc=${PIPESTATUS[0]}
-cp /tmp/ev_$prop.json.bak /verif/evidence/$prop.json 2>/dev/null
-git -C $WT checkout -q -- . ; git -C $WT clean -fdq
+cp /tmp/ev_$prop.$$.bak /verif/evidence/$prop.json 2>/dev/null; rm -f /tmp/ev_$prop.$$.bak
+git -C /repo worktree remove --force $WT
 exit $rc
